@@ -62,7 +62,7 @@ static const scpi_command_t mt_cmds[] = {
     {"AAAA:Bb", mt_plain, 1}, {"AAAA:Bb?", mt_plainq, 2}, {"AAAA[:Dd]:Ee", mt_plain, 3}, {"AAAA:Cc#", mt_plain, 4}, {"Bb", mt_plain, 5}, {"AAAA:Gg[:Hh]", mt_plain, 8}, {"AAAA:Gg[:Ii]", mt_plain, 9}, {"*XY", mt_plain, 6}, {"*XY?", mt_plainq, 7},
     {"I2", mt_i2, 10}, {"OPT", mt_opt, 11}, {"CH", mt_ch, 12}, {"NUM", mt_num, 13}, {"TXT", mt_txt, 14}, {"TXT?", mt_txtq, 15}, {"BLK", mt_blk, 16}, {"IB", mt_ib, 32}, {"DBL?", mt_dbl, 17}, {"ARR", mt_arr, 18}, {"EXPR", mt_expr, 19},
     {"Q1?", mt_q1, 20}, {"Q2?", mt_q2, 21}, {"Q0?", mt_q0, 22}, {"Q0E?", mt_q0e, 23}, {"Q1E?", mt_q1e, 24}, {"QPART?", mt_qpart, 25}, {"QTAIL?", mt_qtail, 26}, {"QB?", mt_qb, 27}, {"Q1P?", mt_q1, 28},
-    {"C0", mt_c0, 30}, {"CE", mt_ce, 31},
+    {"C0", mt_c0, 30}, {"CE", mt_ce, 31}, {"RESV", NULL, 33}, {"RESV?", NULL, 34},      /* reserved headers: entries without callback */
     {"*CLS", SCPI_CoreCls, 40}, {"*ESR?", SCPI_CoreEsrQ, 41}, {"*STB?", SCPI_CoreStbQ, 42}, {"*IDN?", SCPI_CoreIdnQ, 43}, {"SYSTem:ERRor[:NEXT]?", SCPI_SystemErrorNextQ, 44}, {"SYSTem:ERRor:COUNt?", SCPI_SystemErrorCountQ, 45},
     SCPI_CMD_LIST_END
 };
